@@ -255,6 +255,7 @@ def run_history(cfg, ops, strict, root, want_answers=True):
     answers = []
     stats = collections.Counter()
     fail = None
+    seen = []
 
     def bad(i, what, expected, observed):
         return {'case': case, 'what': 'operation %d %s: %s' % (i, json.dumps(ops[i]), what),
@@ -272,10 +273,12 @@ def run_history(cfg, ops, strict, root, want_answers=True):
             if exp is None:
                 answers.append('unmodelled')
                 continue
+            if exp['key'] not in seen:
+                seen.append(exp['key'])
             kind, val = run.load(r)
             after = run.snapshot()
             if want_answers:
-                answers.append(GL.real_answer(run, kind, val))
+                answers.append(GL.real_answer(run, kind, val, seen))
             stats['load:' + (exp['kind'] if exp['kind'] == 'ok' else exp['err'])] += 1
             if exp['kind'] == 'ok':
                 stats['serve:' + exp['serve'][0]] += 1
